@@ -37,7 +37,7 @@ func init() {
 	register(&c19{base{
 		id:          "C19",
 		level:       lvlExploration,
-		rule:        "a valid small set is re-emitted by the reference writers with ONE semantic mutation and fully re-checksummed (packet MD5s / PAR1 control hash; in 'rederive' mode also file IDs, set ID and set hash, so that only semantic validation can object): every numeric field of every PAR2 packet type and of the PAR1 header and entries x boundary values {0,1,v-1,v+1,max-1,max,2^31,2^32,2^62,2^63,2^64-1, remaining+-1, slice-multiple+-1}; bodies truncated/extended; removal and duplication of every packet type in index and volume files; recovery blocks of the wrong size; duplicate, unsorted, unknown and missing IDs; file lengths and hashes that disagree with the checksum lists; then seeded PAIRS of mutations and the full recovery-packet field grid applied to volumes stripped of their main/description/checksum packets. Each mutated archive is verified and repaired (data files intact, one missing, one corrupt) in a child capped at 4 GiB: no panic or fatal error; runtime.MemStats.Sys may not grow by more than 512 MiB for these < 1 MiB sets when the declared slice size is <= 64 KiB; 'no repair needed' only if every declared file has its declared hash; every file Repair creates or changes must be a declared name inside the directory whose bytes have the MD5 the archive itself declares. A key is (format, family, file, packet/field, value, data state). Fixed families: absurd slice sizes (finding L), sets whose files all have length 0, PAR1 indexes with 254..300 entries saved in the parity set. PAR1: every pair of header fields set to huge mutually consistent values; every third mutated index judged without its volumes.. The header length field of every packet set to 15 boundary values; PAR1: Verify's usable-volume count bounded by the volume files large enough to hold parity for the longest data file present. Every third mutation of the PAR2 index is also judged without recovery files; the last file of a set fits one slice; PAR1 volumes with consistently shortened recovery data standing alone; a clean verdict is held against the recovery set the index itself declares. PAR1: the usable-volume count is also bounded by the volume files large enough for the largest saved file a canonical index declares. The field grids of one set also run in a GOARCH=386 build of the worker. PAR1: data offset / data size pairs whose sum wraps around 2^64 to the file size.",
+		rule:        "a valid small set is re-emitted by the reference writers with ONE semantic mutation and fully re-checksummed (packet MD5s / PAR1 control hash; in 'rederive' mode also file IDs, set ID and set hash, so that only semantic validation can object): every numeric field of every PAR2 packet type and of the PAR1 header and entries x boundary values {0,1,v-1,v+1,max-1,max,2^31,2^32,2^62,2^63,2^64-1, remaining+-1, slice-multiple+-1}; bodies truncated/extended; removal and duplication of every packet type in index and volume files; recovery blocks of the wrong size; duplicate, unsorted, unknown and missing IDs; file lengths and hashes that disagree with the checksum lists; then seeded PAIRS of mutations and the full recovery-packet field grid applied to volumes stripped of their main/description/checksum packets. Each mutated archive is verified and repaired (data files intact, one missing, one corrupt) in a child capped at 4 GiB: no panic or fatal error; runtime.MemStats.Sys may not grow by more than 512 MiB for these < 1 MiB sets when the declared slice size is <= 64 KiB; 'no repair needed' only if every declared file has its declared hash; every file Repair creates or changes must be a declared name inside the directory whose bytes have the MD5 the archive itself declares. A key is (format, family, file, packet/field, value, data state). Fixed families: absurd slice sizes (finding L), sets whose files all have length 0, PAR1 indexes with 254..300 entries saved in the parity set. PAR1: every pair of header fields set to huge mutually consistent values; every third mutated index judged without its volumes.. The header length field of every packet set to 15 boundary values; PAR1: Verify's usable-volume count bounded by the volume files large enough to hold parity for the longest data file present. Every third mutation of the PAR2 index is also judged without recovery files; the last file of a set fits one slice; PAR1 volumes with consistently shortened recovery data standing alone; a clean verdict is held against the recovery set the index itself declares. PAR1: the usable-volume count is also bounded by the volume files large enough for the largest saved file a canonical index declares. The field grids of one set also run in a GOARCH=386 build of the worker. PAR1: data offset / data size pairs whose sum wraps around 2^64 to the file size. Fixed family illegal-slice-sizes: whole sets written consistently for slice sizes 1, 2, 3, 5, 6, 10, 18.",
 		assumptions: append([]string{"an allocation failure is inconclusive when the mutation declares a slice/file size above the cap (memory proportional to a declared size is allowed by the property)"}, commonAssumptions...),
 		opts:        core.WorkerOpts{CrashIsViolation: true, ASLimitMiB: 4096, WallSeconds: 2400, CPUSeconds: 1200},
 	}})
